@@ -22,7 +22,12 @@ func RunAll(r io.Reader, w io.Writer) error {
 		} else if err != nil {
 			return err
 		}
-		evs := Run(&b)
+		var evs []sim.Ev
+		if b.Frame != nil {
+			evs = RunFrame(b.ID, b.Frame)
+		} else {
+			evs = Run(&b)
+		}
 		if err := enc.Encode(sim.Ev{"e": "reset", "case": n, "id": b.ID}); err != nil {
 			return err
 		}
